@@ -451,6 +451,60 @@ func ruleScope(m *evalModel, r *Report, rule string) {
 			r.check(okEnv, rule, m.apply, "scope built by Apply", in.Pos(), "child of the closure's defining scope (f.Env)", "Apply does not build the callee scope from the closure's defining scope")
 		}
 	}
+	// 3b. every evaluation Apply starts (through the function's Eval field) runs in the scope GenEnv built
+	for _, b := range m.apply.Blocks {
+		for _, in := range b.Instrs {
+			ci, ok := in.(ssa.CallInstruction)
+			if !ok || ci.Common().StaticCallee() != nil || ci.Common().IsInvoke() {
+				continue
+			}
+			ld, ok := ci.Common().Value.(*ssa.UnOp)
+			if !ok {
+				continue
+			}
+			fa, ok := ld.X.(*ssa.FieldAddr)
+			if !ok || fieldName(fa.X.Type(), fa.Field) != "Eval" {
+				continue
+			}
+			n++
+			okEnv := false
+			for _, a := range ci.Common().Args {
+				if !strings.HasSuffix(a.Type().String(), "types.EnvType") {
+					continue
+				}
+				if ex, ok := a.(*ssa.Extract); ok && ex.Index == 0 {
+					if gc, ok := ex.Tuple.(*ssa.Call); ok {
+						if gl, ok := gc.Call.Value.(*ssa.UnOp); ok {
+							if gfa, ok := gl.X.(*ssa.FieldAddr); ok && fieldName(gfa.X.Type(), gfa.Field) == "GenEnv" {
+								okEnv = true
+							}
+						}
+					}
+				}
+			}
+			r.check(okEnv, rule, m.apply, "scope of the body evaluated by Apply", in.Pos(), "the scope GenEnv just created for this call", "Apply evaluates a function body in a scope that was not created for this call (the closure's defining scope itself): definitions made by the body land in a scope shared with other calls and evaluations")
+		}
+	}
+	// 3c. a child scope is linked to exactly the scope it was created from
+	if w := m.w; w != nil {
+		for _, fn := range w.pkgFuncs("env") {
+			for _, b := range fn.Blocks {
+				for _, in := range b.Instrs {
+					st, ok := in.(*ssa.Store)
+					if !ok {
+						continue
+					}
+					fa, ok := st.Addr.(*ssa.FieldAddr)
+					if !ok || fieldName(fa.X.Type(), fa.Field) != "outer" {
+						continue
+					}
+					n++
+					_, isParam := st.Val.(*ssa.Parameter)
+					r.check(isParam || isNilConst(st.Val), rule, fn, "outer scope of a new scope", st.Pos(), "the scope passed by the creator", "the new scope is not linked to the scope it was created from ("+describeVal(m.e, st.Val, 0)+"): scopes in between are skipped, so bindings made in them later are invisible to closures created here")
+				}
+			}
+		}
+	}
 	// 4. who writes: Set/SetNT/Update/Remove/RemoveNT on a scope that is not fresh only in def and defmacro
 	for _, fn := range m.evalFuncs() {
 		for _, b := range fn.Blocks {
@@ -1652,4 +1706,18 @@ func doMode(call *ssa.Call) string {
 		return "tail"
 	}
 	return ""
+}
+
+
+// doCallMode: the mode (see doMode) of the calls of the body helper inside fn, "" when they disagree or there are none.
+func doCallMode(fn, doFn *ssa.Function) string {
+	mode := ""
+	for _, c := range staticCallsTo(fn, doFn) {
+		mm := doMode(c)
+		if mode != "" && mm != mode {
+			return ""
+		}
+		mode = mm
+	}
+	return mode
 }
